@@ -2,14 +2,19 @@ import FcpModel
 /-!
 # C07 — parsing is the inverse of printing
 
-Partial, and labelled so.  Proved here, at token level, for the two *recursive* productions
-of the grammar (`type`, nested to any depth, and `value`, arrays nested to any depth) against
-the reference recursive-descent parser: every printing of a tree parses back to that tree and
-leaves exactly the suffix.  Printing is a relation, so all spellings and all line numbers are
-covered at once.  The flat productions (struct / enum / impl / service / device / mod) and
-the character level (whitespace, comments, optional separators) are not proved: they are
-exercised on every run by comparing the real Lark front end, this reference front end and
-the printed description on generated texts under three formatting regimes.
+Proved at **token level for the whole grammar**: `C07_parse_print` — every printing of a
+file (relation `FileToks`: every production, every choice of the optional separators — `|`
+before and between parameters, the comma after a parameter argument, `as` before a binding's
+name —, arbitrary line numbers, types and values nested to any depth) parses back to exactly
+that file with the reference recursive-descent parser; fuel is never the reason for an error
+(`ValToks.depth_le`, `TyToks.depth_le`, the `…length_le` lemmas).  Printing is a relation, so
+all spellings are covered at once.  `C07_default_impl` ties the declared structs to their
+default bindings; `C07_lexer_lines` (in C11) bounds the lexer's line bookkeeping.
+
+Still by correspondence only (hence the level note stays "partial"): the character level —
+that the lexer maps a text with any whitespace and comments to the token list of its
+printing — and that the real Lark/Earley front end agrees with the reference parser; both are
+exercised on every run on generated texts under three formatting regimes.
 -/
 namespace Fcp
 open Syntax
@@ -24,6 +29,15 @@ to any depth -/
 theorem C07_value_partial (v : PVal) (ts : List LTok) (h : ValToks v ts) (f last : Nat) (rest : List LTok)
     (hf : v.depth ≤ f) : parseValue f last (ts ++ rest) = .ok (v, rest) :=
   parseValue_print v ts h f last rest hf
+
+/-- **the whole file**: parsing inverts printing for every production of the grammar -/
+theorem C07_parse_print (pf : PFile) (ts : List LTok) (h : FileToks pf ts) : parseFile ts = .ok pf :=
+  parseFile_print pf ts h
+
+/-- every declaration kind parses back in front of any continuation -/
+theorem C07_decl_print (d : PDecl) (ts : List LTok) (h : DeclToks d ts) (last : Nat) (rest : List LTok) :
+    parseDecl last (ts ++ rest) = .ok (d, rest) :=
+  parseDecl_print d ts h last rest
 
 /-- one default binding per struct, named after it, is added where the struct is declared -/
 theorem C07_default_impl (loader : List String → String → Except Frontend.Err Frontend.Tree)
@@ -46,5 +60,22 @@ example : ValToks (.arr (.cons (.num "1") (.cons (.arr (.cons (.ident "x") (.con
      ⟨.str "s", 1⟩, ⟨.sym ']', 1⟩, ⟨.sym ']', 1⟩] :=
   .arr _ _ 1 (.more _ _ [_] _ 1 (.num "1" 1)
     (.last _ [_, _, _, _, _] 1 (.arr _ _ 1 (.more _ _ [_] _ 1 (.ident "x" 1) (.last _ [_] 1 (.str "s" 1))))))
+
+/-! non-vacuity for the whole file: a module import, a struct whose field has a unit parameter
+written with the optional bar, a binding renamed without `as` — the relation is inhabited and
+the reference parser returns the file on that very token list -/
+def C07_file : PFile := ⟨"3", 1, [.mod ["a", "b"] 2,
+  .struct "S" [⟨"x", "0", .f32, [⟨"unit", [.str "V"]⟩], 3⟩] 3,
+  .impl "can" "S" (some "T") [.field "id" (.num "10")] 4]⟩
+
+theorem C07_file_printing : ∃ ts, FileToks C07_file ts ∧ ts.length = 34 :=
+  ⟨_, .mk "3" 1 1 1 _ _
+    (.cons _ _ _ _ (.mod _ 2 2 _ (.more "a" 2 2 _ _ (.one "b" 2)))
+    (.cons _ _ _ _ (.struct "S" _ 3 3 3 3 _ (.cons _ _ _ _
+        (.bar "x" "0" .f32 _ _ _ 3 3 3 3 3 3 (.f32 3)
+          (.bare "unit" [.str "V"] [] _ [] 3 3 (.bare _ _ _ _ (.str "V" 3) (.nil 3)) .nil)) .nil) (by simp))
+    (.cons _ _ _ _ (.impl "can" "S" (some "T") [.field "id" (.num "10")] 4 4 4 4 4 4 _ _
+        (.bare "T" 4 (by decide)) (.field "id" (.num "10") 4 4 4 _ [] [] (.num "10" 4) .nil) (by simp))
+      .nil))), by simp⟩
 
 end Fcp
